@@ -118,7 +118,8 @@ class BoboDistributedCryptoAES(BoboDistributedCrypto):
               -(self._mac_length + _LEN_END_BYTES):
               -_LEN_END_BYTES]
 
-        cipher = AES.new(self._aes_key, AES.MODE_GCM, nonce=nonce)
+        cipher = AES.new(self._aes_key, AES.MODE_GCM,
+                         nonce=nonce, mac_len=self._mac_length)
         plaintext = cipher.decrypt_and_verify(  # type: ignore
             ciphertext, mac).decode(_UTF_8).rstrip(_PAD_CHAR)
 
